@@ -373,6 +373,9 @@ class Wrapper(GroupNode):
     merging = False
 
     def query(self, parser):
+        # The wrapped node can be gone, e.g. when it was a misplaced operator
+        if not self.nodes:
+            return None
         q = self.nodes[0].query(parser)
         if q:
             return attach(self.qclass(q), self)
